@@ -257,6 +257,19 @@ def one(rec, t, ti, name, obj, j, rng):
         except Exception:
             mback = None
         d1 = serialize(t, C, back)
+        # further deserializations of the same class (other lengths: truncated, empty, with a trailing byte) must
+        # not reach into the instance already handed out
+        shown = (repr(back), getattr(back, "byte_size", None))
+        for other in (b1[: len(b1) // 2], b"", b1 + b"\x01"):
+            try:
+                C.deserialize(LockstepReader(t.EoReader(other), RefReader(other), fuel=min(50 * len(other) + 2000, 6 * len(other) + 200000)))
+            except (Exception, FuelExhausted):
+                pass
+        rec.count("earlier-instances-rechecked")
+        if (repr(back), getattr(back, "byte_size", None)) != shown:
+            case["xml"] = t.files
+            rec.violation("changed-by-another-instance", "tree %d %s: a deserialized instance showed %s / byte_size %r; after other inputs were deserialized it shows %s / %r" % (
+                ti, name, shown[0][:120], shown[1], repr(back)[:120], getattr(back, "byte_size", None)), case)
         if mback is not None:
             br.walk(mback, back, probe_instance(rec, t, ti, "deserialized"))
         else:
